@@ -2032,6 +2032,27 @@ mod string_store {
         }
     }
 
+    #[cfg(feature = "verif_hooks")]
+    impl ObjStringStore {
+        // Verification hook H3: read-only view of the table layout.
+        pub(super) fn verif_layout(&self) -> (Vec<Option<(u64, String, usize)>>, usize, usize) {
+            let entries = self
+                .entries
+                .iter()
+                .map(|e| {
+                    e.as_ref().map(|r| {
+                        (
+                            r.hash,
+                            r.as_str().to_owned(),
+                            r.as_str().as_ptr() as usize,
+                        )
+                    })
+                })
+                .collect();
+            (entries, self.size, self.mask)
+        }
+    }
+
     impl Default for ObjStringStore {
         fn default() -> Self {
             ObjStringStore {
@@ -2040,5 +2061,55 @@ mod string_store {
                 mask: INIT_CAPACITY - 1,
             }
         }
+    }
+}
+
+#[cfg(feature = "verif_hooks")]
+pub mod verif_intern {
+    //! Verification hook H3: drive an intern table in isolation with caller-chosen
+    //! (hash, text) pairs. Compiled only with feature `verif_hooks`.
+    use super::string_store::ObjStringStore;
+    use super::Vm;
+    use crate::memory::{Gc, Root};
+    use crate::object::{ObjClass, ObjString};
+
+    pub struct InternTable {
+        store: ObjStringStore,
+        class: Gc<ObjClass>,
+    }
+
+    impl InternTable {
+        pub fn new(vm: &Vm) -> Self {
+            InternTable {
+                store: ObjStringStore::new(),
+                class: vm.string_class.as_ref().expect("Expected Root.").as_gc(),
+            }
+        }
+
+        /// Identity (address of the interned text) of the entry found for (hash, text).
+        pub fn get(&self, hash: u64, text: &str) -> Option<usize> {
+            self.store
+                .get((hash, text))
+                .map(|r| r.as_str().as_ptr() as usize)
+        }
+
+        /// Inserts a fresh ObjString with the given hash; returns (identity, replaced an entry).
+        pub fn insert(&mut self, hash: u64, text: &str) -> (usize, bool) {
+            let string = Root::new(ObjString::new(self.class, text, hash));
+            let id = string.as_str().as_ptr() as usize;
+            let previous = self.store.insert(string);
+            (id, previous.is_some())
+        }
+
+        /// (entries as (hash, text, identity), size, mask)
+        pub fn layout(&self) -> (Vec<Option<(u64, String, usize)>>, usize, usize) {
+            self.store.verif_layout()
+        }
+    }
+
+    /// Cached hash and identity of the string the VM interns for `text`.
+    pub fn vm_intern(vm: &mut Vm, text: &str) -> (u64, usize) {
+        let s = vm.new_gc_obj_string(text);
+        (s.hash, s.as_str().as_ptr() as usize)
     }
 }
